@@ -2,6 +2,7 @@
     block loop consume exactly what they count. *)
 Require Import Zrs.lib.RsPrelude Zrs.gen.Generated Zrs.model.Headers Zrs.model.BlockDec Zrs.model.FrameDec.
 Require Import Zrs.proofs.C05_Block Zrs.proofs.C06_Frame Zrs.proofs.C11_Reset Zrs.proofs.C10_Prefix.
+Require Import Zrs.proofs.C10_All.
 Open Scope Z_scope.
 
 Theorem C10_header_consumed_exactly : forall src h n, read_frame_header src = FhOk h n ->
@@ -36,6 +37,26 @@ Proof. exact loop_ext. Qed.
 Theorem C10_header_ignores_what_follows : forall src h n t, read_frame_header src = FhOk h n -> read_frame_header (src ++ t) = FhOk h n.
 Proof. exact read_frame_header_ext. Qed.
 
+(** decode_all (the multi-frame loop): leftover bytes that cannot even hold a magic number -- a concatenation cut one to
+    three bytes into the next frame, or that much trailing garbage -- are an error, never silently accepted; and a
+    normal return on a non-empty input means a first frame (or skippable frame) was completely processed and the rest
+    went through the same loop, so it can only end at a frame boundary with nothing left *)
+Theorem C10_decode_all_rejects_short_tail : forall d input cap, (1 <= length input < 4)%nat ->
+  fdec_decode_all d input cap = RErr "MagicNumberReadError".
+Proof. exact decode_all_rejects_short_tail. Qed.
+
+Theorem C10_decode_all_returns_only_at_frame_boundaries : forall fuel d input room w d' out, input <> [] ->
+  decode_all_outer (S fuel) d input room w = ROk (d', out) ->
+  (exists m len, frame_front input (fd_max_window d) = inr (m, len) /\ len <= zlen (drop_z 8 input) /\
+     decode_all_outer fuel d (drop_z len (drop_z 8 input)) room w = ROk (d', out)) \/
+  (exists d1 rest ev d2 rest2 room2 w2,
+     fdec_reset d input = ROk (d1, rest, ev) /\
+     decode_all_inner (S (S (length rest))) d1 rest room w = ROk (d2, rest2, room2, w2) /\
+     decode_all_outer fuel d2 rest2 room2 w2 = ROk (d', out)).
+Proof. exact decode_all_ok_unfolds. Qed.
+
+Print Assumptions C10_decode_all_rejects_short_tail.
+Print Assumptions C10_decode_all_returns_only_at_frame_boundaries.
 Print Assumptions C10_strict_prefix_never_decodes.
 Print Assumptions C10_trailing_bytes_left_unread.
 Print Assumptions C10_header_ignores_what_follows.
